@@ -1103,6 +1103,16 @@ class Interp:
             return Builtin("dict." + name, o)
         if isinstance(o, list) and name in ("append", "extend"):
             return Builtin("list." + name, o)
+        if isinstance(o, (list, tuple)) and name == "index":
+            def index(a, k, n, o=o):
+                for pos, v in enumerate(o):
+                    if _seq(v, a[0]):
+                        return pos
+                raise Raised("ValueError: not in list")
+            return PyFunc(index)
+        if isinstance(o, (list, tuple)) and name == "count":
+            return PyFunc(lambda a, k, n, o=o: sum(1 for v in o
+                                                   if _seq(v, a[0])))
         raise Unsupported(f"attribute .{name} of {type(o).__name__}", node)
 
     def class_attr(self, cls: ClassInfo, name, obj, node):
@@ -1332,6 +1342,13 @@ class Interp:
             return d
         if n == "sorted":
             return sorted(args[0])
+        if n == "reversed":
+            v = args[0]
+            if isinstance(v, (list, tuple, range)):
+                return list(reversed(v))
+            if isinstance(v, dict):
+                return list(reversed(list(v)))
+            raise Unsupported("reversed of non-sequence", node)
         if n == "bool":
             return self.truth(args[0], node)
         if n == "arr.flatten" or n == "arr.copy" or n == "arr.astype":
